@@ -645,6 +645,9 @@ func psCorpus() [][]psStep {
 	nilM5.KS, nilM5.SigS = psSRef{Nil: true}, psSRef{Nil: true}
 	badA := psMsg{Kind: "m3", AGood: false, AN: 1, ProofKind: "empty"}
 	badA2 := psMsg{Kind: "m3", AGood: false, AN: 2, ProofKind: "garbage"}
+	badA3 := psMsg{Kind: "m3", AGood: false, AN: 3, ProofKind: "garbage"}
+	badA0 := psMsg{Kind: "m3", AGood: false, AN: 0, ProofKind: "garbage"}
+	pubA3 := psMsg{Kind: "m3", AGood: false, AN: 3, ProofKind: "public"}
 	wrong := validM3(0, 0)
 	wrong.PCodeOk = false
 	pubA := psMsg{Kind: "m3", AGood: false, AN: 2, ProofKind: "public"}
@@ -670,6 +673,16 @@ func psCorpus() [][]psStep {
 		{{0, psMsg{Kind: "m1"}}, {0, wrong}, {0, nilM5n}},
 		{{0, psMsg{Kind: "m1"}}, {0, badA}, {0, zeroM5n}},
 		{{0, psMsg{Kind: "m1"}}, {0, pubA}, {0, nilM5n}},
+		// (round 9, C02-r9m2) every kind of unusable SRP key — missing, 0, N, 2N (one byte longer than any honest key) — with
+		// every kind of proof, then each key exchange anybody can make: a refusal on ANY path must end the exchange
+		{{0, psMsg{Kind: "m1"}}, {0, badA3}, {0, zeroM5n}},
+		{{0, psMsg{Kind: "m1"}}, {0, badA3}, {0, zeroM5}},
+		{{0, psMsg{Kind: "m1"}}, {0, badA3}, {0, nilM5n}},
+		{{0, psMsg{Kind: "m1"}}, {0, badA0}, {0, zeroM5n}},
+		{{0, psMsg{Kind: "m1"}}, {0, badA0}, {0, nilM5n}},
+		{{0, psMsg{Kind: "m1"}}, {0, pubA3}, {0, zeroM5n}},
+		{{0, psMsg{Kind: "m1"}}, {0, badA3}, {0, badA3}, {0, zeroM5n}},
+		{{0, psMsg{Kind: "m1"}}, {0, validM3(0, 0)}, {0, genuineM5(0, 0, 7, 9)}, {0, psMsg{Kind: "m1"}}, {0, badA3}, {0, zeroM5n}},
 		{{0, psMsg{Kind: "m1"}}, {0, zeroM5n}},
 		{{0, zeroM5n}},
 		{{0, psMsg{Kind: "m1"}}, {0, pubA}, {0, nilM5}},
